@@ -403,8 +403,11 @@ func runOutboxStress(c *Case) {
 	}
 	total := 0
 	for _, sc := range cls {
-		hs, trans, rest, ferr := sc.wc.Received()
+		// ONE snapshot of what was written: re-framing, the Lean parser and the ledger all look at the same bytes
+		// (transactions nobody waits for — a late login-sequence item — may still trickle in)
 		stream := sc.wc.Conn.Written()
+		hs := stream[:min(8, len(stream))]
+		trans, rest, ferr := splitTransactions(stream[len(hs):])
 		total += len(stream)
 		c.Note("client", sc.idx)
 		c.Note("stream_bytes", len(stream))
@@ -624,7 +627,8 @@ func runLoginAgreement(c *Case) {
 		return false
 	})
 	a.Quiesce(20*time.Millisecond, 2*time.Second)
-	_, trans, rest, ferr := a.Received()
+	snapshot := a.Conn.Written() // one snapshot for every judgement below
+	trans, rest, ferr := splitTransactions(snapshot[min(8, len(snapshot)):])
 	c.Note("agreement_bytes", len(agreement))
 	bad, sizes := writesWhole(a.Conn.Writes())
 	c.Note("write_sizes", clip(fmt.Sprint(sizes)))
@@ -658,8 +662,8 @@ func runLoginAgreement(c *Case) {
 	if fired && lines != 1 {
 		c.Violation("broadcast-delivery-count", fmt.Sprintf("the chat line sent during the login arrived %d times", lines))
 	}
-	if len(a.Conn.Written()) <= 200000 {
-		c.Corr("stream-reframing", streamCanon(trans), c.AskS("streamdec", hx(a.Conn.Written()[8:])), true)
+	if len(snapshot) <= 200000 {
+		c.Corr("stream-reframing", streamCanon(trans), c.AskS("streamdec", hx(snapshot[8:])), true)
 	}
 	a.Conn.EOF()
 	b.Conn.EOF()
